@@ -3,12 +3,16 @@
 
    [validate rootc g] (Analysis.v) mirrors BuildNodeMapFromPackages, BuildGraph and
    CheckTargetConstraints; [defect_free rootc g] is the declarative reading of the property.
-   The unguarded equivalence is FALSE of the faithful model (two [_refuted] witnesses below, each
-   reproduced on the real code by tools/c11.py, known findings C11-F2 and C11-F3; C11-F1 -- dir
-   outputs not checked against the workspace boundary -- and C11-F4 -- a dir output that is the
-   workspace root overlaps nothing -- are repaired in the code this model mirrors, their former
-   witnesses are now [C11_dir_output_escape_rejected] / [C11_root_dir_overlap_rejected]); the
-   strongest true statement is [C11_sound_complete_partial].  The clause-wise theorems carry only
+   One direction is true without any guard: [C11_accept_sound], what grog accepts has none of the
+   listed defects.  The converse is FALSE of the faithful model (one [_refuted] witness below,
+   reproduced on the real code by tools/c11.py, known finding C11-F2: grog rejects overlapping
+   outputs of ONE target, which the property's list does not name); the strongest true
+   equivalence is [C11_sound_complete_partial].  C11-F1 -- dir outputs not checked against the
+   workspace boundary --, C11-F3 -- an output spelled so that it leaves the workspace lexically and
+   re-enters it escaped conflict detection -- and C11-F4 -- a dir output that is the workspace
+   root overlapped nothing -- are repaired in the code this model mirrors; their former witnesses
+   are now [C11_dir_output_escape_rejected] / [C11_reentrant_overlap_rejected] /
+   [C11_root_dir_overlap_rejected].  The clause-wise theorems carry only
    the guards they need; cycle detection, ordering by ancestor sets, duplicate / missing labels,
    input paths, output paths (file AND directory), tests-have-commands and the test/testonly
    rules are UNGUARDED (beyond a well-formed node map).
@@ -65,20 +69,27 @@ Print Assumptions C11_ordered_iff.
 (* ---- output conflicts *)
 (* exactly what the pair loops decide: some pair of output RECORDS (two outputs of one target
    included) of owners not ordered by dependency whose keys clash *)
-Theorem C11_conflict_exact : forall g, NoDup (labels g) -> no_dangling g ->
-  (has_conflict g = true <->
-   exists r1 r2, In (r1, r2) (pairs (records g)) /\
+Theorem C11_conflict_exact : forall rootc g, NoDup (labels g) -> no_dangling g ->
+  (has_conflict rootc g = true <->
+   exists r1 r2, In (r1, r2) (pairs (records rootc g)) /\
                  ~ ordered_spec g (r_owner r1) (r_owner r2) /\ keys_clash r1 r2 = true).
 Proof. exact conflict_exact. Qed.
 Print Assumptions C11_conflict_exact.
 
 (* against the declarative clause (two DISTINCT targets, overlap of the places the outputs
-   denote), under G2 (no output spelling climbs above the root when read from it; an output that
-   IS the root is covered) and G3 (no target overlaps itself) *)
+   denote), for path outputs inside the workspace (the other clause, [C11_outputs_iff]) however
+   they are spelled: when the pair loops find nothing there is no conflict ... *)
+Theorem C11_no_conflict_sound : forall rootc g,
+  NoDup (labels g) -> no_dangling g -> Forall plain_comp rootc -> outputs_ok rootc g ->
+  has_conflict rootc g = false -> no_conflict rootc g.
+Proof. exact no_conflict_sound. Qed.
+Print Assumptions C11_no_conflict_sound.
+
+(* ... and, under G3 (no target overlaps itself), conversely *)
 Theorem C11_conflict_iff_partial : forall rootc g,
   NoDup (labels g) -> no_dangling g -> Forall plain_comp rootc ->
-  rel_pkgs g -> rel_outputs g -> plain_outputs g -> no_self_overlap rootc g ->
-  (has_conflict g = false <-> no_conflict rootc g).
+  outputs_ok rootc g -> no_self_overlap rootc g ->
+  (has_conflict rootc g = false <-> no_conflict rootc g).
 Proof. exact conflict_iff_partial. Qed.
 Print Assumptions C11_conflict_iff_partial.
 
@@ -113,13 +124,21 @@ Theorem C11_path_within_root_iff : forall a d, Forall plain a -> Forall plain d 
 Proof. exact path_within_rel. Qed.
 Print Assumptions C11_path_within_root_iff.
 
-(* cleanOutputPath = the elements of the walk ("." for none), when the walk never climbs above the root *)
-Theorem C11_clean_output_path : forall pkg id r,
-  resolve_from [] (split_slash pkg ++ split_slash id) = Some r ->
-  is_abs pkg = false -> (pkg = [] -> is_abs id = false) ->
-  clean_output_path pkg id = render_rel r.
-Proof. exact clean_output_path_rel. Qed.
+(* cleanOutputPath = the elements of the output's location below the workspace root ("." for
+   none), for every output inside the workspace, whatever its spelling *)
+Theorem C11_clean_output_path : forall rootc pkg id r,
+  location rootc pkg id = rootc ++ r -> clean_output_path rootc pkg id = render_rel r.
+Proof. exact clean_output_path_within. Qed.
 Print Assumptions C11_clean_output_path.
+
+(* on a spelling that never climbs above the root it is the lexical Clean(Join(pkg, id)) the code
+   compared before the repair of C11-F3: no key of such an output changed *)
+Theorem C11_clean_output_path_conservative : forall rootc pkg id, Forall plain_comp rootc ->
+  resolve_from [] (split_slash pkg ++ split_slash id) <> None ->
+  is_abs pkg = false -> (pkg = [] -> is_abs id = false) ->
+  clean_output_path rootc pkg id = lexical_output_path pkg id.
+Proof. exact clean_output_path_lexical. Qed.
+Print Assumptions C11_clean_output_path_conservative.
 
 Theorem C11_inputs_iff : forall g, has_bad_input g = false <-> inputs_ok g.
 Proof. exact inputs_iff. Qed.
@@ -153,27 +172,31 @@ Theorem C11_deprules_iff : forall g, NoDup (labels g) -> acyclic g ->
 Proof. exact deprules_iff. Qed.
 Print Assumptions C11_deprules_iff.
 
-(* ---- the whole property, guarded (G2: no output spelling climbs above the workspace root;
-   G3: no target declares two overlapping outputs of its own) *)
+(* ---- the whole property.  First half, UNGUARDED: nothing with a listed defect is accepted *)
+Theorem C11_accept_sound : forall rootc g,
+  clean_root rootc -> validate rootc g = Accept -> defect_free rootc g.
+Proof. exact accept_sound. Qed.
+Print Assumptions C11_accept_sound.
+
+(* the equivalence, guarded (G3: no target declares two overlapping outputs of its own) *)
 Theorem C11_sound_complete_partial : forall rootc g,
-  clean_root rootc -> rel_pkgs g ->
-  plain_outputs g -> no_self_overlap rootc g ->
+  clean_root rootc -> no_self_overlap rootc g ->
   (validate rootc g = Accept <-> defect_free rootc g).
 Proof. exact sound_complete_partial. Qed.
 Print Assumptions C11_sound_complete_partial.
 
-(* the guards are met by an accepted graph with a directory and two file outputs *)
+(* the guard is met by an accepted graph with a directory and two file outputs, one of them
+   spelled by leaving the workspace and re-entering it (outside the former guard G2) *)
 Theorem C11_sound_complete_partial_nonvacuous :
-  clean_root Witness.root /\ rel_pkgs Witness.g_ok /\ plain_outputs Witness.g_ok /\
-  no_self_overlap Witness.root Witness.g_ok /\
+  clean_root Witness.root /\ no_self_overlap Witness.root Witness.g_ok /\ ~ plain_outputs Witness.g_ok /\
   validate Witness.root Witness.g_ok = Accept /\ defect_free Witness.root Witness.g_ok.
 Proof. exact Witness.sound_complete_partial_nonvacuous. Qed.
 Print Assumptions C11_sound_complete_partial_nonvacuous.
 
-(* ---- and why the guards are needed: the unguarded equivalence fails in both directions *)
+(* ---- and why the guard is needed: the unguarded equivalence fails, in the direction
+   "defect free -> accepted" *)
 Theorem C11_sound_complete_refuted :
-  (exists rootc g, clean_root rootc /\ rel_pkgs g /\ validate rootc g = Accept /\ ~ defect_free rootc g) /\
-  (exists rootc g, clean_root rootc /\ rel_pkgs g /\ defect_free rootc g /\ validate rootc g <> Accept).
+  exists rootc g, clean_root rootc /\ rel_pkgs g /\ defect_free rootc g /\ validate rootc g <> Accept.
 Proof. exact Witness.sound_complete_refuted. Qed.
 Print Assumptions C11_sound_complete_refuted.
 
@@ -183,15 +206,17 @@ Theorem C11_same_target_overlap_refuted :
 Proof. exact Witness.same_target_refuted. Qed.
 Print Assumptions C11_same_target_overlap_refuted.
 
-(* F3 (guard G2): two unordered writers of one file, one spelled ../../ws/p1/a, are accepted;
-   every output is a file output inside the workspace *)
-Theorem C11_reentrant_overlap_refuted :
-  exists rootc g, clean_root rootc /\ rel_pkgs g /\ validate rootc g = Accept /\
-    outputs_ok rootc g /\
-    (forall t o, In (NTarget t) g -> In o (all_outputs t) -> o_type o = OFile) /\
-    ~ no_conflict rootc g.
-Proof. exact Witness.reentrant_refuted. Qed.
-Print Assumptions C11_reentrant_overlap_refuted.
+(* former F3, repaired: two unordered writers of one file, one spelled ../../ws/p1/a (so the former
+   guard G2 excluded the graph); every output is a file output inside the workspace, no target
+   overlaps itself; the graph has a conflict and is rejected for it *)
+Theorem C11_reentrant_overlap_rejected :
+  clean_root Witness.root /\ no_self_overlap Witness.root Witness.g_reentrant /\
+  ~ plain_outputs Witness.g_reentrant /\ outputs_ok Witness.root Witness.g_reentrant /\
+  (forall t o, In (NTarget t) Witness.g_reentrant -> In o (all_outputs t) -> o_type o = OFile) /\
+  ~ no_conflict Witness.root Witness.g_reentrant /\
+  validate Witness.root Witness.g_reentrant = Reject [Conflict].
+Proof. exact Witness.reentrant_rejected. Qed.
+Print Assumptions C11_reentrant_overlap_rejected.
 
 (* former F1, repaired: dir::../../outside lies outside the workspace and is rejected for it *)
 Theorem C11_dir_output_escape_rejected :
@@ -201,8 +226,8 @@ Proof. exact Witness.dir_escape_rejected. Qed.
 Print Assumptions C11_dir_output_escape_rejected.
 
 (* former F4, repaired: a directory output that IS the workspace root (dir::.. from p1) next to an
-   unordered writer of p1/a meets every guard of C11_sound_complete_partial, has a conflict, and is
-   rejected for it *)
+   unordered writer of p1/a meets the guard of C11_sound_complete_partial (and its former guards),
+   has a conflict, and is rejected for it *)
 Theorem C11_root_dir_overlap_rejected :
   clean_root Witness.root /\ rel_pkgs Witness.g_root_dir /\ plain_outputs Witness.g_root_dir /\
   no_self_overlap Witness.root Witness.g_root_dir /\
